@@ -201,6 +201,17 @@ def eval_monad_groupby(a, backend):
     arr = backend.kg_asarray(a)
     if backend.array_size(arr) == 0:
         return arr
+    if arr.ndim > 1 or arr.dtype == object:
+        # rows and nested lists are single elements: group them by Match
+        groups = []
+        for i, x in enumerate(arr):
+            for g in groups:
+                if backend.kg_equal(arr[g[0]], x):
+                    g.append(i)
+                    break
+            else:
+                groups.append([i])
+        return backend.kg_asarray([bknp.asarray(g) for g in groups])
     vals, inverse = bknp.unique(arr, return_inverse=True)
     groups = [bknp.where(inverse == i)[0] for i in range(len(vals))]
     return backend.kg_asarray(groups)
